@@ -2341,7 +2341,8 @@ macro_rules! value_dy_math_impl {
                             if arr.data[0].is_infinite() || arr.data[0].is_nan() {
                                 return None;
                             }
-                            arr.data[0] < 0.0
+                            // Dividing by ¯0 reverses the order too
+                            arr.data[0].is_sign_negative()
                         },
                         Value::Byte(arr) if arr.shape == [] => false,
                         _ => return None,
